@@ -6,6 +6,7 @@
 #include "model.hpp"
 #include "engines.hpp"
 #include "gen_common.hpp"
+#include <cstdlib>
 
 // ---------------------------------------------------------------- shared generation helpers (also used by reuse/interleave)
 void collect_names(const Node &n, std::vector<Bytes> &out) {
@@ -170,6 +171,7 @@ Plan sloppy_generate(uint64_t base, const std::string &prop, uint64_t index, int
     gen_sloppy_ops(ro, p.ops, 1 + (int)ro.below(60), names, p.doc.size(), p.root, true);
     p.faults.push_back("F8:faulty_caller");
     if (prop != "C16" && ro.chance(1, 5)) p.par["nocb"] = 1;      // an application without a token callback
+    if (getenv("VERIF_GUARD")) p.par["guard"] = 1;                 // delivered buffer ends at a PROT_NONE page (plain build cross-check of ASan)
     return p;
 }
 
